@@ -81,7 +81,7 @@ MANIFEST = dict(
               "homogeneity degrees, affine translation weights)",
 )
 FLOORS = {"C03.1": 1, "C03.2": 1, "C03.3": 1, "C03.4": 3, "C03.5": 1,
-          "C03.6": 8, "C03.7": 2, "C03.8": 4}
+          "C03.6": 8, "C03.7": 2, "C03.8": 4, "C03.9": 1}
 FN = "evo.core.geometry.umeyama_alignment"
 
 
@@ -338,6 +338,11 @@ def check(ctx):
     from ..core import import_rules
     n = import_rules(ctx, "c04", ("C04.2",), "C03.8")
     ctx.require(n >= 4, "C03.8: first-n instances not found")
+    # the returned similarity is a function of the two point sets alone: a
+    # shared memoised object (a cached identity matrix ...) written in place
+    # makes it depend on earlier calls (instances of C16.4)
+    n = import_rules(ctx, "c16", ("C16.4",), "C03.9")
+    ctx.require(n >= 1, "C03.9: memoised-result instances not found")
 
 
 def _sign_fix_value(ctx, f, ws, ret, fixes):
